@@ -3,7 +3,7 @@ CONSTANTS
  DescPlatStrict = TRUE
  PlatLookupStrict = FALSE
  ReadFaults = FALSE
- EqualAnnStrict = FALSE
+ EqualAnnStrict = TRUE
  PutFirst = FALSE
  DedupByDigest = FALSE
  DeleteKeepsOne = FALSE
